@@ -361,9 +361,67 @@ def replay(ctx, case):
         check_valid(ctx, case)
 
 
+# ---------------------------------------------------------------------------
+# atheris (coverage-guided) campaign: same oracle, inside the target
+# ---------------------------------------------------------------------------
+def atheris_seeds(kind):
+    from neuroglancer_scripts import chunk_encoding as ce
+    out = []
+    for i in range(6):
+        p = bytes([i, 1 + i, 2, 3 + i % 3, i % 3, 1 + i, 1, 2 + i])
+        size = [1 + p[1] % 6, 1 + p[2] % 6, 1 + p[3] % 6]
+        X, Y, Z = size
+        C = 1 + p[4] % 3
+        if kind == "raw":
+            dt = ["uint8", "uint16", "uint32", "uint64", "float32"][p[0] % 5]
+            body = bytes(C * X * Y * Z * np.dtype(dt).itemsize)
+        elif kind == "cseg":
+            dt = ["uint32", "uint64"][p[0] % 2]
+            block = [1 + p[5] % 8, 1 + p[6] % 8, 1 + p[7] % 8]
+            chunk = c02_cseg.build_chunk({
+                "dtype": dt, "channels": C, "size": size, "block": block,
+                "seed": i, "share": True, "values": "small",
+                "pal": ["2", "5-16"]})
+            body = bytes(ce.CompressedSegmentationEncoder(dt, C, block)
+                         .encode(chunk))
+        else:
+            C = [1, 3][p[0] % 2]
+            body = ce.JpegChunkEncoder("uint8", C).encode(
+                smooth_chunk(C, X, Y, Z, i))
+        out.append(p + body)
+    return out
+
+
+def atheris_deep(kind, data):
+    class _C:
+        def fail(self, msg):
+            raise AssertionError(msg)
+    p = bytes(data[:8]).ljust(8, b"\0")
+    size = [1 + p[1] % 6, 1 + p[2] % 6, 1 + p[3] % 6]
+    if kind == "raw":
+        return len(data) > 8
+    case = {"decoder": kind, "size": size, "data": bytes(data[8:]),
+            "channels": 1 + p[4] % 3 if kind == "cseg" else [1, 3][p[0] % 2],
+            "dtype": ["uint32", "uint64"][p[0] % 2] if kind == "cseg"
+            else "uint8", "block": [1 + p[5] % 8, 1 + p[6] % 8, 1 + p[7] % 8]}
+    return decode_outcome(_C(), case)[1]
+
+
+def run_atheris(ctx, n):
+    from vlib import atheris_run
+    if ctx.tier == "quick":
+        atheris_run.campaign(ctx, ["raw", "cseg", "jpeg"], atheris_seeds,
+                             atheris_deep, runs=n)
+    else:
+        atheris_run.campaign(ctx, ["raw", "cseg", "jpeg"], atheris_seeds,
+                             atheris_deep, seconds=n)
+
+
 SUBS = [
     Sub("raw", run_kind("raw"), replay, quick=2500, thorough=100000),
     Sub("cseg", run_kind("cseg"), replay, quick=6000, thorough=300000),
     Sub("jpeg", run_kind("jpeg"), replay, quick=4000, thorough=150000),
     Sub("valid", run_valid, replay, quick=1500, thorough=40000),
+    Sub("atheris", run_atheris, replay, quick=30000, thorough=120,
+        serial=True),
 ]
